@@ -376,6 +376,8 @@ fn main() {
         cmp!(Dual2SVec64<2>, "Dual2SVec64<2>");
         cmp!(Dual2DVec64, "Dual2DVec64");
         cmp!(Dual2DVec32, "Dual2DVec32");
+        cmp!(DualSVec64<1>, "DualSVec64<1>");
+        cmp!(Dual2SVec32<2>, "Dual2SVec32<2>");
         acc.merge(float_instances(&ctx, shard));
         let _ = t;
         acc
